@@ -197,7 +197,10 @@ func init() {
 				}
 			}
 			// records appended unmodified
-			type ex struct{ closure, field, what string }
+			type ex struct {
+				closure, field, what string
+				others               map[string]string // every other field of the state entry and the value it must carry
+			}
 			okAssets := false
 			for _, c := range CallsTo(fn, "builtin.append") {
 				a := argT(fa, c, 1)
@@ -206,7 +209,13 @@ func init() {
 				}
 			}
 			r.Check(okAssets, k, "assets exported unmodified", "append(state.Assets, *asset) for every stored asset", "exported assets are not the stored records", e.Pos(fn.Pos()))
-			wantCl := []ex{{"$1", "Validator", "$info"}, {"$2", "", "$d"}, {"$3", "Redelegation", "$r"}, {"$4", "Undelegation", "$u"}, {"$5", "Snapshot", "$snapshot"}}
+			wantCl := []ex{
+				{"$1", "Validator", "$info", map[string]string{"ValidatorAddress": "sdk.ValAddress.String($valAddr)"}},
+				{"$2", "", "$d", nil},
+				{"$3", "Redelegation", "$r", map[string]string{"CompletionTime": "$completionTime"}},
+				{"$4", "Undelegation", "$u", map[string]string{"CompletionTime": "$completionTime"}},
+				{"$5", "Snapshot", "$snapshot", map[string]string{"Height": "$height", "Validator": "sdk.ValAddress.String($valAddr)", "Denom": "$denom"}},
+			}
 			for _, w := range wantCl {
 				var cl *ssa.Function
 				for _, a := range fn.AnonFuncs {
@@ -228,6 +237,16 @@ func init() {
 							ok = el.String() == w.what
 						} else if _, v := ovrGet(el, "."+w.field); v != nil && v.String() == w.what {
 							ok = true
+							// the key part of the entry (address, completion time, height, denom) is the callback's argument
+							// as given: import files the record under it
+							for fld, want := range w.others {
+								_, ov := ovrGet(el, "."+fld)
+								got := "<not set>"
+								if ov != nil {
+									got = ordinalRe.ReplaceAllString(ov.String(), "")
+								}
+								r.Check(got == want, k, "exported "+w.field+" entry: "+fld, want, "the exported "+fld+" of a "+w.field+" entry is "+got+", not the value the store iterator handed out ("+want+"): the imported module files the record under another key", e.Pos(cl.Pos()))
+							}
 						}
 					}
 				}
